@@ -80,6 +80,9 @@ def recorderConfigFields : String := "MinSecs:thermalRecorderConfig.MinSecs;MaxS
 /-- RecorderConfig.validate: the rejected case -/
 def recorderConfigValidate : String := "conf.MaxSecs < conf.MinSecs"
 
+/-- frameParser: camera model -> parser -/
+def frameParserMap : String := "lepton3.Model,lepton3.Model35=>return lepton3.ParseRawFrame;\"boson\"=>return convertRawBosonFrame"
+
 /-- handleConn: condition under which the throttle wraps the recorder -/
 def throttleGuardExpr : String := "conf.Throttler.Activate"
 
